@@ -60,7 +60,7 @@ pub fn gen_consts(ch: &mut Ch) -> Vec<ConstDef> {
         let kind = ch.below(16);
         let (decl, expect) = match kind {
             0 => {
-                let v = *ch.pick(&[0i32, 1, -1, 12, i32::MAX, i32::MIN + 1, -2147483647, 65536, -7]);
+                let v = *ch.pick(&[0i32, 1, -1, 12, i32::MAX, i32::MIN + 1, i32::MIN, 65536, -7]);
                 (format!(": i32 = {v}"), Some(ConstVal::I32(v)))
             }
             1 => {
@@ -152,7 +152,7 @@ pub fn gen_consts(ch: &mut Ch) -> Vec<ConstDef> {
                 } else {
                     let p = (*ch.pick(&prev)).clone();
                     match p.expect.clone().unwrap() {
-                        ConstVal::I32(v) if v.abs() < 1_000_000 => (format!(": i32 = {} + 1", p.name), Some(ConstVal::I32(v + 1))),
+                        ConstVal::I32(v) if v.unsigned_abs() < 1_000_000 => (format!(": i32 = {} + 1", p.name), Some(ConstVal::I32(v + 1))),
                         ConstVal::U32(v) if v < 1_000_000 => (format!(": u32 = {} * 2u", p.name), Some(ConstVal::U32(v * 2))),
                         other => (format!(" = {}", p.name), Some(other)),
                     }
